@@ -164,11 +164,43 @@ func (c pcase) options() []resource.Option {
 		opts = append(opts, resource.WithNoDuplicates())
 	case (len(c.Ops)+len(c.Writes))%2 == 1:
 		// the general route: any Comparer (chosen by the shape of the case, so a replay takes the same route)
-		opts = append(opts, resource.WithEquivalence(resource.ComparerFunc(c.Spec.build())))
+		opts = append(opts, resource.WithEquivalence(resource.ComparerFunc(guarded(c.Spec.build()))))
 	default:
-		opts = append(opts, resource.WithMessageEquivalence(c.Spec.build()))
+		opts = append(opts, resource.WithMessageEquivalence(guarded(c.Spec.build())))
 	}
 	return opts
+}
+
+// guarded: the equivalence runs in the resource's own goroutines, where a panic of the comparer would take
+// the whole harness down (and every replay recorded so far with it): it is caught, remembered and reported
+// as the run's error (takeComparerPanic).
+var comparerPanic struct {
+	mu  sync.Mutex
+	msg string
+}
+
+func guarded(e func(x, y proto.Message) bool) func(x, y proto.Message) bool {
+	return func(x, y proto.Message) (r bool) {
+		defer func() {
+			if p := recover(); p != nil {
+				comparerPanic.mu.Lock()
+				if comparerPanic.msg == "" {
+					comparerPanic.msg = fmt.Sprint(p)
+				}
+				comparerPanic.mu.Unlock()
+				r = false
+			}
+		}()
+		return e(x, y)
+	}
+}
+
+func takeComparerPanic() string {
+	comparerPanic.mu.Lock()
+	defer comparerPanic.mu.Unlock()
+	m := comparerPanic.msg
+	comparerPanic.msg = ""
+	return m
 }
 
 func (c pcase) readOptions() []resource.ReadOption { return c.readOptionsWith(nil) }
@@ -285,7 +317,11 @@ func (c pcase) runCode() pullOut {
 	case <-done:
 	case <-w.C:
 		w.ranOut()
+		takeComparerPanic()
 		return pullOut{err: "timeout"}
+	}
+	if m := takeComparerPanic(); m != "" && out.err == "" {
+		out.err = "panic in the equivalence:" + m
 	}
 	return out
 }
@@ -539,6 +575,10 @@ func (c pcase) codeAnswer(out pullOut) string {
 // events are taken from the code: the model is only about the equivalence decisions).
 func (c pcase) line(out pullOut) string {
 	parts := []string{c.Kind, c.specToken(), c.filterToken()}
+	if len(c.Neighbours) > 0 {
+		// the shared-event model (Shared.lean): the observed subscriber next to its neighbours, neighbours first
+		parts[0] = "cshared"
+	}
 	if c.Kind == "vpull" {
 		if c.UpdatesOnly {
 			parts = append(parts, "nil") // no seed: the loop starts with last = nil whatever is stored
@@ -550,6 +590,13 @@ func (c pcase) line(out pullOut) string {
 		}
 	} else {
 		parts = append(parts, c.Inc.token(c.Type))
+		if len(c.Neighbours) > 0 {
+			var ns []string
+			for i := range c.Neighbours {
+				ns = append(ns, c.Neighbours[i].token(c.Type))
+			}
+			parts = append(parts, strings.Join(ns, "|"))
+		}
 		for i, e := range out.events {
 			parts = append(parts, encTop(out.olds[i]), encTop(e))
 		}
@@ -572,7 +619,7 @@ func (c pcase) monitor(ms *monitors, out pullOut) string {
 	}
 	var E func(x, y proto.Message) bool
 	if c.Spec != nil {
-		E = c.Spec.build()
+		E = guarded(c.Spec.build())
 	}
 	class := "exact"
 	if c.tolerance() {
@@ -629,6 +676,10 @@ func (c pcase) monitor(ms *monitors, out pullOut) string {
 				what = "a change to an item the subscriber neither holds nor may see was delivered"
 			}
 			ms.delivery.Violate(sig, what, in, fmt.Sprintf("event %d delivered=%v (held=%v new=%v)", i, expected, h, n), fmt.Sprintf("delivered=%v", out.delivered[i]))
+		}
+		if out.delivered[i] && c.Kind == "cpull" && !proto.Equal(out.got[i], n) {
+			// what a delivered change carries as its new value is what the subscriber may see of the item now
+			ms.delivery.Violate("C16/Collection.Pull/delivered-value-differs", "a delivered change does not carry the item's value as this subscriber may see it (read mask applied; nothing when the item is gone or outside its include predicate)", in, fmt.Sprintf("event %d new value %v", i, n), fmt.Sprint(out.got[i]))
 		}
 		if out.delivered[i] {
 			if n == nil {
@@ -712,6 +763,11 @@ func (g *gen) pcase() pcase {
 	g.noUnknown, g.noNegZero = true, true
 	defer func() { g.noUnknown, g.noNegZero = false, false }()
 	mt := ancestorTypes[g.r.Intn(len(ancestorTypes))]
+	if g.r.Intn(5) == 0 {
+		// the dynamic type: the store keeps proto.Clone's of what it is given, whose Timestamp / Duration
+		// children are dynamicpb values: the time comparers see those on both sides
+		mt = dynTimesType
+	}
 	c := pcase{Kind: "vpull", Type: mt}
 	if g.r.Intn(3) == 0 {
 		c.Kind = "cpull"
